@@ -110,7 +110,7 @@ pub fn c20_case() -> impl Strategy<Value = C20Case> {
     })
 }
 
-pub const C20_RULE: &str = "case = (segment of 2..8 generated devices (0..12 input / output bytes, with or without CoE) in 2..3 groups brought to OP; 2..4 tasks, each on its own resource: process data cycles of one group with evolving output patterns, or a script of register writes / reads, SDO reads (expedited and segmented) / writes and EEPROM reads on one device; a schedule (which runnable task is polled next at every await point), per-frame round trip times 1..500 us so that responses arrive out of send order, frame storage just enough or ample); every task is also run alone on an identically set up segment; non-trivial = at least two tasks and a latency list in which a later frame has a shorter round trip than an earlier one (so that responses overtake each other); distinct by hash of the case";
+pub const C20_RULE: &str = "case = (segment of 2..8 generated devices (0..12 input / output bytes, with or without CoE) in 2..3 groups brought to OP; 2..4 tasks, each on its own resource: process data cycles of one group with evolving output patterns, or a script of register writes / reads, SDO reads (expedited and segmented) / writes and EEPROM reads on one device; a schedule (which runnable task is polled next at every await point), per-frame round trip times 1..500 us so that responses arrive out of send order, frame storage just enough or ample); every task is also run alone on an identically set up segment; non-trivial = (measured by the executor) at least two frames in flight at once and at least one response delivered while a frame sent earlier was still on its way; distinct by hash of the case";
 
 #[derive(Default)]
 pub struct G20 {
@@ -333,10 +333,9 @@ fn c20_run(case: &C20Case, only: Option<usize>) -> Result<Result<RunOut, Error>,
 
     let net = net.borrow();
 
-    // overlap / reordering as seen by the simulator: frames are processed in send order; a frame
-    // is "in flight" from its processing until its round trip time has passed
-    let lat: Vec<u64> = cfg.latencies.clone();
-    let reordered = lat.len() >= 2 && lat.windows(2).any(|w| w[1] < w[0]);
+    // overlap / reordering as measured by the executor
+    let overlap = net.stats.max_in_flight >= 2;
+    let reordered = net.stats.overtakes >= 1;
 
     Ok(res.map(|logs| RunOut {
         logs,
@@ -355,7 +354,7 @@ fn c20_run(case: &C20Case, only: Option<usize>) -> Result<Result<RunOut, Error>,
                 (outs, d.mem[usize::from(SCRATCH)..usize::from(SCRATCH) + 32].to_vec())
             })
             .collect(),
-        overlap: case.tasks.len() >= 2,
+        overlap,
         reordered,
     }))
 }
